@@ -225,3 +225,64 @@ def sparse_csr_from_coalesced(ctx) -> None:
            "the COO tensor converted to CSR is the result of sparse_add (coalesced) on every path" if bad is None else
            f"SparseOperator._from_operator_repr: {bad} on some path — a product of sparse_kron that skips the coalescing sum has "
            f"unsorted indices and gives a wrong CSR matrix (e.g. a single term containing a Hadamard on a qubit other than the last)")
+
+
+def pchip_end_slopes(ctx) -> None:
+    """Standard PCHIP end slopes (Fritsch–Carlson three-point formula with the shape-preserving limiter, as in SciPy's
+    `_edge_case`): the three-point estimate d is set to 0 whenever its sign differs from the sign of the boundary secant
+    m0 — which includes m0 = 0 (a flat end interval must stay flat) — and capped at 3·m0 when the two end secants differ
+    in sign and |d| > 3|m0|.  Also: each end passes (its boundary secant, the next one) in that order."""
+    prog = ctx.prog
+    f = prog.func("emu_base.math.pchip_torch._limit_endpoint")
+    d, sl, sr = (("param", f.qualname, n) for n in f.params[:3])
+    rets = [p for p in Interp(prog, None, inline=lambda c, r, d_: False).run(f) if p.status == "return"]
+    ctx.require(len(rets) == 1, "PCHIP-end: _limit_endpoint is expected to be straight-line code")
+    r = strip_typed(rets[0].retval)
+    zero_masks = []
+    for t in walk(r):
+        if t[0] == "call" and t[1] == "torch.where" and len(t[2]) == 3:
+            m, a, b = (strip_typed(x) for x in t[2])
+            if a[0] == "call" and a[1] in ("torch.zeros_like", "torch.zeros") and b == d:
+                zero_masks.append(m)
+    ok = False
+    why = "no `where(mask, 0, d_end)` found"
+    for m in zero_masks:
+        if m[0] == "cmp" and m[1] in ("<", "<=") and strip_typed(m[3]) in (("const", 0), ("const", 0.0)):
+            prod = strip_typed(m[2])
+            is_prod = prod[0] == "bin" and prod[1] == "Mult" and {strip_typed(prod[2]), strip_typed(prod[3])} == {d, sl}
+            if is_prod and m[1] == "<=":
+                ok = True
+            elif is_prod:
+                why = "the end slope is zeroed only when d_end·s_l < 0: with a zero boundary secant (flat end interval) it is kept"
+        elif m[0] == "cmp" and m[1] == "!=":
+            sg = lambda t_, x: strip_typed(t_)[0] == "call" and strip_typed(t_)[1] in ("torch.sign", "torch.sgn") and strip_typed(strip_typed(t_)[2][0]) == x  # noqa: E731
+            ok = (sg(m[2], d) and sg(m[3], sl)) or (sg(m[2], sl) and sg(m[3], d))
+            if not ok:
+                why = f"the zeroing mask is {show(m)[:60]}"
+    ctx.ob("PCHIP-end", "end slope zeroed against the boundary secant, zero secant included", f.loc(), ok,
+           "d_end ← 0 whenever sign(d_end) ≠ sign(boundary secant) (a flat end interval keeps slope 0)" if ok else
+           f"_limit_endpoint: {why} — e.g. samples (…, a, 0, 0): the interpolant leaves the flat last interval (PCHIP1D(range(6), "
+           f"[0,1,3,5,0,0]) gives −0.31 at 4.5 and 2.81 at 5.5, standard PCHIP gives 0), so midpoints in the first/last "
+           f"nanoseconds of a pulse that starts after or ends before a delay get a wrong detuning/phase")
+    # the call sites: (boundary secant, next secant)
+    g = prog.func("emu_base.math.pchip_torch._pchip_derivatives")
+    okc = True
+    n = 0
+    for p in Interp(prog, None, inline=lambda c, r_, d_: False).run(g):
+        for e in p.events:
+            if e.kind == "call" and e.name == f.qualname:
+                n += 1
+                a, b = strip_typed(e.args.get(f.params[1])), strip_typed(e.args.get(f.params[2]))
+                if not (a[0] == "sub" and b[0] == "sub" and strip_typed(a[1]) == strip_typed(b[1])):
+                    okc = False
+                    continue
+                ia, ib = strip_typed(a[2]), strip_typed(b[2])
+                pair = (ia[1] if ia[0] == "const" else None, ib[1] if ib[0] == "const" else None)
+                okc = okc and pair in ((0, 1), (-1, -2))
+        if n:
+            break
+    ctx.require(n == 2, f"PCHIP-end: {n} calls of _limit_endpoint in _pchip_derivatives, 2 confirmed by hand")
+    ctx.ob("PCHIP-end", "each end passes (boundary secant, next secant)", g.loc(), okc,
+           "left end: (δ[0], δ[1]); right end: (δ[-1], δ[-2])" if okc else
+           "_pchip_derivatives hands _limit_endpoint the two end secants in the wrong order: the end slope is limited against "
+           "the inner secant instead of the boundary one")
